@@ -13,7 +13,7 @@ pub fn run(thorough: bool) -> Vec<Part> {
         let mut cfg = Cfg::base("C11", "post-error-lockstep", alphabet::small(if thorough { 1 } else { 0 }), 40);
         cfg.continue_after_error = true;
         cfg.empty_reads = false;
-        let limits = Limits { max_states: 8_000_000, max_secs: if thorough { 3000.0 } else { 150.0 }, ..Default::default() };
+        let limits = Limits { max_states: 14_000_000, max_secs: if thorough { 1500.0 } else { 150.0 }, ..Default::default() };
         let st = bfs(&cfg, &limits, workers());
         record(&mut part, "post-error-lockstep", &st);
         {
